@@ -311,9 +311,10 @@ def h_concrete_seeded(ctx, case):
             ok = ok and _identical(ctx, _flat(a), _flat(b))
         I = teneva.sample_lhs([4, 4, 4], 40, seed=1)
         yy = rng.normal(size=40)
-        for kw in ({}, {'lamb': None}, {'lamb': None, 'w': np.ones(40)}):
-            a = teneva.als(I, yy, teneva.rand([4, 4, 4], 2, seed=2), nswp=2, **kw)
-            b = teneva.als(I, yy, teneva.rand([4, 4, 4], 2, seed=2), nswp=2, **kw)
+        for kw in ({}, {'lamb': None}, {'lamb': None, 'w': np.ones(40)}, {'update_sol': 1e-2}, {'update_sol': 0.5, 'lamb': 1e-2}):
+            Y0_ = teneva.rand([4, 4, 4], 2, seed=2)          # the same initial tensor object for both calls
+            a = [G.copy() for G in teneva.als(I, yy, Y0_, nswp=2, **kw)]
+            b = teneva.als(I, yy, Y0_, nswp=2, **kw)
             ok = ok and _identical(ctx, _flat(a), _flat(b))
         ctx.claim('repeated_call_identical', bool(ok) and np.array_equal(y, y0))
         return
